@@ -418,6 +418,14 @@ create_icf_block_hdr(struct isal_zstream *stream, uint8_t *start_in)
         avail_output =
                 stream->avail_out + sizeof(state->buffer) - (stream->total_in - state->block_end);
 
+        /* A gzip/zlib header that has not been written yet comes out of the same
+         * output space before the stored block does */
+        if (!state->has_wrap_hdr && (stream->gzip_flag == IGZIP_GZIP || stream->gzip_flag == IGZIP_ZLIB)) {
+                uint32_t wrap_hdr_bytes =
+                        (stream->gzip_flag == IGZIP_GZIP) ? gzip_hdr_bytes : zlib_hdr_bytes;
+                avail_output = (avail_output > wrap_hdr_bytes) ? avail_output - wrap_hdr_bytes : 0;
+        }
+
         if (bit_count / 8 >= block_size && cur_in_processed >= block_start_offset &&
             block_size <= avail_output) {
                 /* Reset stream for writing out a type0 block */
